@@ -186,6 +186,14 @@ def scanGlueWidth (neg : Bool) (h : Head) (u : UnitSpec) : SR :=
     | .ok v e o => .ok (if neg then -v else v) e o
     | .undef => .undef
 
+/-- §461: the glue specification from its width and the optional `plus` / `minus` parts
+(each a full `scan_dimen` with `inf=true`); the errors add up. -/
+def scanGlue (w : SR) (plus minus : Option SR) : Option (Glue × Nat) :=
+  match w, plus.getD (.ok 0 0 0), minus.getD (.ok 0 0 0) with
+  | .ok wv we _, .ok pv pe po, .ok mv me mo =>
+    some ({ width := wv, stretch := pv, stretchOrder := po, shrink := mv, shrinkOrder := mo }, we + pe + me)
+  | _, _, _ => none
+
 /-! ## §1236–§1240 -/
 
 inductive AR (α : Type) where
@@ -210,6 +218,27 @@ def multiplyDimen (a b : Int) : AR Int :=
 def divide (a b : Int) : AR Int :=
   let r := xOverN a b
   if r.err then .error else if fits r.val then .set r.val else .undef
+
+/-- §1236–§1238 on one register: new value, error flag; `none` where TeX is undefined. -/
+def stepInt (a : Int) : ArithOp → Option (Int × Bool)
+  | .advance b => match advanceInt a b with | .set v => some (v, false) | .error => some (a, true) | .undef => none
+  | .multiply b => match multiplyInt a b with | .set v => some (v, false) | .error => some (a, true) | .undef => none
+  | .divide b => match divide a b with | .set v => some (v, false) | .error => some (a, true) | .undef => none
+
+def stepDimen (a : Int) : ArithOp → Option (Int × Bool)
+  | .advance b => match advanceInt a b with | .set v => some (v, false) | .error => some (a, true) | .undef => none
+  | .multiply b => match multiplyDimen a b with | .set v => some (v, false) | .error => some (a, true) | .undef => none
+  | .divide b => match divide a b with | .set v => some (v, false) | .error => some (a, true) | .undef => none
+
+def runReg (step : Int → ArithOp → Option (Int × Bool)) : Int → List ArithOp → Option (Int × Nat)
+  | a, [] => some (a, 0)
+  | a, op :: ops =>
+    match step a op with
+    | none => none
+    | some s =>
+      match runReg step s.1 ops with
+      | none => none
+      | some r => some (r.1, r.2 + (if s.2 then 1 else 0))
 
 /-- §1239: `q` is the scanned summand, `r` the register: one of stretch/shrink. -/
 def addComp (r : Int) (ro : Nat) (q : Int) (qo : Nat) : Int × Nat :=
